@@ -5,6 +5,7 @@
 //     one rejection at every position) on "/" and "/custom", each executed on the real server
 //     (explicit enumeration, default schedule, virtual time);
 //  2. concurrent connects: 2-3 clients with a middleware blocked on a gate, all schedules <= d;
+//     several namespaces multiplexed over one connection whose CONNECT handling overlaps, per-packet auth;
 //  3. per-socket event middleware: chains x handler signatures x accept/reject.
 package main
 
@@ -18,6 +19,7 @@ import (
 
 	sio "github.com/karagenc/socket.io-go"
 	"github.com/karagenc/socket.io-go/adapter"
+	eioparser "github.com/karagenc/socket.io-go/engine.io/parser"
 	vx "github.com/karagenc/socket.io-go/internal/vexplore"
 	"github.com/karagenc/socket.io-go/internal/vrig"
 	"github.com/karagenc/socket.io-go/internal/vsched"
@@ -354,6 +356,147 @@ func concurrentConnects(name string, nclients int, reject []bool, bound int) *vx
 		}
 	}
 	return sc
+}
+
+// multiplexedConnects: ONE connection (one Engine.IO session, as one Manager with several sockets makes it) sends
+// CONNECT packets for several namespaces, each with its own auth payload; the server handles every CONNECT packet
+// on its own goroutine, so the middleware chains of the namespaces run at the same time. Every namespace is guarded
+// by the same chain: m0 looks at the payload, m1 is slow (waits for a gate, when gated), m2 judges the token of
+// handshake.Auth AFTER the slow step, m3 accepts. right[i] tells whether the CONNECT packet for nss[i] carries the
+// right token. Each namespace's verdict must be the one its own chain gave on its own CONNECT packet: a packet with
+// a wrong token is rejected by m2 (CONNECT_ERROR carrying m2's rejection, m3 and the connection handlers never run,
+// nothing listed, no rooms, the connection does not track it), one with the right token is admitted exactly once -
+// whatever the other namespaces of the connection are doing.
+// delivery: "frame-by-frame" (one OnPacket call per CONNECT packet, as WebSocket delivers them), "one-payload" (all
+// of them in one OnPacket call, a polling payload), "two-threads" (each packet fed from its own thread).
+func multiplexedConnects(name string, nss []string, right []bool, delivery string, gated bool, bound int) *vx.Scenario {
+	sc := &vx.Scenario{Name: name, Bound: bound, Horizon: 30 * time.Second}
+	sc.Body = func(e *vsched.Exec) func() vx.Result {
+		srv := sio.NewServer(nil)
+		gate := make(chan struct{})
+		var v vsched.Var
+		calls := map[string][]int{}
+		seen := map[string][]string{} // the token each judging step found in handshake.Auth
+		connHandlers := map[string]int{}
+		token := func(h *sio.Handshake) string {
+			var a struct {
+				Token string `json:"token"`
+			}
+			json.Unmarshal(h.Auth, &a)
+			return a.Token
+		}
+		nsps := map[string]*sio.Namespace{}
+		frames := make([]string, len(nss))
+		for i, ns := range nss {
+			ns := ns
+			nsp := srv.Of(ns)
+			nsps[ns] = nsp
+			tok := "wrong-" + fmt.Sprint(i)
+			if right[i] {
+				tok = "secret"
+			}
+			frames[i] = fmt.Sprintf(`0%s{"token":%q}`, nsPrefix(ns), tok)
+			nsp.Use(func(s sio.ServerSocket, h *sio.Handshake) any {
+				t := token(h)
+				v.Do(func() { calls[ns] = append(calls[ns], 0); seen[ns] = append(seen[ns], t) })
+				s.Join("members")
+				return nil
+			})
+			nsp.Use(func(s sio.ServerSocket, h *sio.Handshake) any {
+				v.Do(func() { calls[ns] = append(calls[ns], 1) })
+				if gated {
+					vsched.RecvStmt(gate) // slow middleware
+				}
+				return nil
+			})
+			nsp.Use(func(s sio.ServerSocket, h *sio.Handshake) any {
+				t := token(h)
+				v.Do(func() { calls[ns] = append(calls[ns], 2); seen[ns] = append(seen[ns], t) })
+				if t != "secret" {
+					return errors.New("unauthorized on " + ns)
+				}
+				return nil
+			})
+			nsp.Use(func(s sio.ServerSocket, h *sio.Handshake) any {
+				v.Do(func() { calls[ns] = append(calls[ns], 3) })
+				return nil
+			})
+			nsp.OnConnection(func(s sio.ServerSocket) { v.Do(func() { connHandlers[ns]++ }) })
+		}
+		f := vrig.NewFakeEIO(srv, "conn")
+		switch delivery {
+		case "frame-by-frame":
+			vsched.GoQuiet("client", func() { f.In(frames...) })
+		case "one-payload":
+			vsched.GoQuiet("client", func() {
+				var ps []*eioparser.Packet
+				for _, fr := range frames {
+					ps = append(ps, vrig.Msg(fr))
+				}
+				f.InPackets(ps...)
+			})
+		case "two-threads":
+			for i := range frames {
+				i := i
+				vsched.GoQuiet(fmt.Sprintf("client%d", i), func() { f.In(frames[i]) })
+			}
+		}
+		if gated {
+			vsched.GoQuiet("gate", func() { vsched.Close(gate) })
+		}
+		return func() vx.Result {
+			var r vx.Result
+			var out []string
+			_, tracked := f.Conn.Namespaces()
+			for i, ns := range nss {
+				nsp := nsps[ns]
+				gotConnect, gotErr, errFrame := 0, 0, ""
+				for _, t := range f.Texts() {
+					if strings.HasPrefix(t, "0"+nsPrefix(ns)+"{") {
+						gotConnect++
+					}
+					if strings.HasPrefix(t, "4"+nsPrefix(ns)+"{") {
+						gotErr++
+						errFrame = t
+					}
+				}
+				listed := len(nsp.Sockets())
+				_, sids, _ := adapter.VerifDump(nsp.Adapter())
+				isTracked := contains(tracked, ns)
+				out = append(out, fmt.Sprintf("%s:%v/%d/%d/%d/%d", ns, calls[ns], gotConnect, gotErr, connHandlers[ns], listed))
+				ctx := fmt.Sprintf("%s, CONNECT packets %q over one connection (%s, gated=%v): chain of %s invoked %v and found the tokens %q in its handshake, CONNECT replies %d, CONNECT_ERRORs %d %s, connection handlers %d, sockets listed %d, adapter sids %v, namespaces of the connection %v; all frames to the client %q",
+					ns, frames, delivery, gated, ns, calls[ns], seen[ns], gotConnect, gotErr, errFrame, connHandlers[ns], listed, sids, tracked, f.Texts())
+				if right[i] {
+					if fmt.Sprint(calls[ns]) != "[0 1 2 3]" || gotConnect != 1 || gotErr != 0 || connHandlers[ns] != 1 || listed != 1 {
+						r.Violate("multiplexed admission: a CONNECT packet that every middleware of its namespace accepts was not admitted exactly once while another namespace of the same connection was connecting", "%s", ctx)
+					}
+				} else {
+					if gotConnect != 0 || connHandlers[ns] != 0 || listed != 0 || isTracked || (len(calls[ns]) > 0 && calls[ns][len(calls[ns])-1] == 3) {
+						r.Violate("multiplexed admission: a CONNECT packet whose auth its namespace's middleware rejects was admitted while another namespace of the same connection was connecting", "%s", ctx)
+					} else if fmt.Sprint(calls[ns]) != "[0 1 2]" || gotErr != 1 || connectErrorMessage(errFrame, ns) != `"unauthorized on `+ns+`"` {
+						r.Violate("multiplexed admission: the rejected namespace of a multiplexed connection did not get exactly one CONNECT_ERROR carrying its middleware's rejection", "%s", ctx)
+					} else if len(sids) != 0 {
+						r.Violate("multiplexed admission: rejected socket left rooms behind in the adapter", "%s", ctx)
+					}
+				}
+			}
+			r.Outcome = strings.Join(out, " ") + fmt.Sprintf(" closed=%d", f.Closed)
+			return r
+		}
+	}
+	return sc
+}
+
+// connectErrorMessage returns the raw "message" member of a CONNECT_ERROR frame for ns.
+func connectErrorMessage(frame, ns string) string {
+	var body struct {
+		Message json.RawMessage `json:"message"`
+	}
+	if len(frame) < 1+len(nsPrefix(ns)) {
+		return ""
+	}
+	json.Unmarshal([]byte(frame[1+len(nsPrefix(ns)):]), &body)
+	return string(body.Message)
 }
 
 // closedDuringChain: the connection ends (transport close, or the server's own connect timeout because the
@@ -878,6 +1021,32 @@ func scenarios(tier string) []*vx.Scenario {
 			s = append(s, closedDuringChain(fmt.Sprintf("closed-during-chain/%s/later-rejects=%v", how, rej), how, rej, b-1))
 		}
 	}
+	// several namespaces multiplexed over one connection, their CONNECT handling overlapping
+	type mux struct {
+		nss   []string
+		right []bool
+	}
+	for _, m := range []mux{
+		{[]string{"/a", "/b"}, []bool{false, true}},
+		{[]string{"/a", "/b"}, []bool{true, false}},
+		{[]string{"/", "/b"}, []bool{false, true}},
+		{[]string{"/a", "/b"}, []bool{false, false}},
+	} {
+		for _, delivery := range []string{"frame-by-frame", "one-payload", "two-threads"} {
+			for _, gated := range []bool{true, false} {
+				g := "slow-middleware"
+				if !gated {
+					g = "no-slow-middleware"
+				}
+				var rs []string
+				for i, ns := range m.nss {
+					rs = append(rs, fmt.Sprintf("%s=%v", ns, map[bool]string{true: "right", false: "wrong"}[m.right[i]]))
+				}
+				s = append(s, multiplexedConnects(fmt.Sprintf("multiplexed-connects/%s/%s/%s", strings.Join(rs, ","), delivery, g), m.nss, m.right, delivery, gated, b-1))
+			}
+		}
+	}
+	s = append(s, multiplexedConnects("multiplexed-connects/3-namespaces/middle-right/one-payload/slow-middleware", []string{"/", "/a", "/b"}, []bool{false, true, false}, "one-payload", true, b-2))
 	for _, x := range s {
 		x.Shards = 4
 	}
@@ -894,7 +1063,7 @@ func main() {
 		Property: "C12",
 		Level:    "model_checking",
 		Rule: "admission: every chain of <= 3 middlewares over {accept, join+accept, reject(error), reject(string), reject(struct), join+reject} plus chains of 4-5 with one rejection at each position, on '/' and '/custom' (chains <= 3 also on a server with connection state recovery whose client presents no pid, an unknown pid, a pid without offset), each run on the real server under the scheduler (default schedule, virtual time) and judged against the statement; " +
-			"concurrent connects of 2-3 clients with a blocking middleware explored to the deviation bound; the connection ending (transport close / connect timeout) while an early middleware still runs and a later one rejects or accepts; a socket whose chain is still running (joined to a room by its first middleware) is not listed and gets no broadcast before the verdict; two goroutines (or a goroutine and a client's CONNECT under AcceptAnyNamespace) setting one namespace up at once: Of(name) is one namespace and its middleware gates the next client; event middleware: chains of <= 2 x 6 handler signatures, and chains of <= 2 over {accept, reject, reject-iff-first-argument-is-bad} x 7 sets of 1-3 On/Once handlers on the same event x 7 sequences of 1-3 accepted/rejected occurrences (also of an unrelated event). distinct_nontrivial = chains containing >= 1 middleware (admission) + event cases with a non-empty chain + deviating schedules",
+			"concurrent connects of 2-3 clients with a blocking middleware explored to the deviation bound; 2-3 namespaces multiplexed over ONE connection, each CONNECT packet with its own auth (right / wrong token) judged by a middleware that reads handshake.Auth after a slow step (or with no slow step), packets delivered frame by frame / in one payload / from two threads, schedules to the deviation bound: every namespace gets the verdict of its own chain on its own CONNECT packet; the connection ending (transport close / connect timeout) while an early middleware still runs and a later one rejects or accepts; a socket whose chain is still running (joined to a room by its first middleware) is not listed and gets no broadcast before the verdict; two goroutines (or a goroutine and a client's CONNECT under AcceptAnyNamespace) setting one namespace up at once: Of(name) is one namespace and its middleware gates the next client; event middleware: chains of <= 2 x 6 handler signatures, and chains of <= 2 over {accept, reject, reject-iff-first-argument-is-bad} x 7 sets of 1-3 On/Once handlers on the same event x 7 sequences of 1-3 accepted/rejected occurrences (also of an unrelated event). distinct_nontrivial = chains containing >= 1 middleware (admission) + event cases with a non-empty chain + deviating schedules",
 		Scenarios: scenarios,
 		Budget: func(tier string) time.Duration {
 			if tier == "thorough" {
